@@ -105,11 +105,22 @@ def check_case(ctx, case, drv):
         return status
     # ---- exactness of the points (only exact points are compared with the model)
     exact = []
-    for pt in points:
+    for pi, pt in enumerate(points):
         try:
-            a08.Oracle(js, pt, ranges).residuals("equations")
-            a08.Oracle(js, pt, ranges).residuals("initial_equations")
+            want = {"dae": [a08.qs(x) for eq in a08.Oracle(js, pt, ranges).residuals("equations") for x in eq],
+                    "initial": [a08.qs(x) for eq in a08.Oracle(js, pt, ranges).residuals("initial_equations") for x in eq]}
             exact.append(True)
+            # … and every combination returns lhs - rhs of the flat equations (the Fraction evaluator of C11)
+            for o in COMBOS:
+                ob = obs[tag(o)]
+                if "raised" in ob:
+                    continue
+                for which in ("dae", "initial"):
+                    if ob["values"][pi][which] != want[which]:
+                        ctx.violation("%s residual under an option combination differs from lhs - rhs of the flat equations" % which,
+                                      dict(jcase, options=o, point=pi), expected=want[which],
+                                      observed=ob["values"][pi][which], kind="configuration")
+                        status = "violation"
         except a08.Inexact:
             exact.append(False)
         except a08.Unsupported as e:
@@ -153,7 +164,14 @@ def fixed_cases():
             "_pymoca_delay_0": [F(3)]},
            {"time": [F(0)], "x": [F(0), F(1), F(2)], "y": [F(-1)], "der(y)": [F(2)], "p": [F(1, 2)], "z": [F(0)],
             "_pymoca_delay_0": [F(-1)]}]
-    return [{"text": txt, "name": "M", "points": pts, "ranges": {}, "features": ["for-equation", "function"]}]
+    txt2 = ("function f\n  input Real a;\n  input Real c;\n  output Real b;\nalgorithm\n  b := a * a + c;\nend f;\n"
+            "model M\n  Real x[4];\n  Real y[4];\n  parameter Real p = 2;\nequation\n  for i in 2:3 loop\n"
+            "    y[i] = f(x[i], p) - 3 * f(x[i+1], p) + 5 * f(x[i-1], p);\n  end for;\n  y[1] = f(x[1], 1) - f(x[2], 1);\n  y[4] = 0;\n"
+            "  for j in 1:4 loop\n    x[j] = f(y[5-j], j) + 2 * f(y[j], j);\n  end for;\nend M;\n")
+    pts2 = [{"time": [F(0)], "x": [F(1), F(2), F(3), F(-1)], "y": [F(0), F(1, 2), F(4), F(-2)], "p": [F(2)]},
+            {"time": [F(1)], "x": [F(-3), F(1, 2), F(0), F(2)], "y": [F(1), F(1), F(-1), F(3)], "p": [F(-1)]}]
+    return [{"text": txt, "name": "M", "points": pts, "ranges": {}, "features": ["for-equation", "function"]},
+            {"text": txt2, "name": "M", "points": pts2, "ranges": {}, "features": ["for-equation", "function"]}]
 
 
 # Where the three options (and the attributes derived from them) are read: the model has exactly these
@@ -242,7 +260,7 @@ def random_models(ctx, drv, n, npoints):
             ctx.notes.append("random models stopped by the time budget after %d" % i)
             break
         g = a08.ModelGen(ctx.rng, npoints, count=lambda k: ctx.count("g:" + k), loops=True,
-                         functions=ctx.rng.choice([1, 1, 2]), delay=ctx.rng.random() < 0.4)
+                         functions=ctx.rng.choice([1, 1, 2]), delay=ctx.rng.random() < 0.4, twin_calls=0.7)
         case = g.make()
         st = check_case(ctx, case, drv)
         calls = "call" in " ".join(k for k in ()) or ("f0(" in case["text"].split("model M")[1])
